@@ -36,7 +36,7 @@ func TestVerifC21Operator(t *testing.T) {
 	}
 	defer cli.Close()
 	publish := c21Publisher(t, endpoints)
-	n := r.N(30, 250)
+	n := r.N(30, 200)
 	for ci := 0; ci < n; ci++ {
 		wctx, cancel := context.WithTimeout(context.Background(), 20*time.Second)
 		_, err := cli.Delete(wctx, "/kafscale/", clientv3.WithPrefix())
@@ -90,7 +90,7 @@ func TestVerifC21OpStress(t *testing.T) {
 	}
 	defer cli.Close()
 	publish := c21Publisher(t, endpoints)
-	n := r.N(6, 40)
+	n := r.N(6, 30)
 	for ci := 0; ci < n; ci++ {
 		metadata.VerifC21StressCase(metadata.VerifC21StressEnv{R: r, Cli: cli, Endpoints: endpoints, Publish: publish, Prefix: "opstress"}, ci, r.Rand(ci))
 	}
